@@ -389,6 +389,59 @@ func ruleSibSwitch(c *Ctx) {
 				return true
 			})
 		}
+		if !found && name == "Serve" {
+			// CFG form: comparisons of a Protocol value with both constants exist,
+			// and with their equal-edges removed the server is never started
+			g := p.Graph(f)
+			protoEq := func(e *Edge) string {
+				var x, y ast.Expr
+				if e.Tag != nil && e.Cond != nil && e.Branch > 0 {
+					x, y = e.Tag, e.Cond
+				} else if at, ok := edgeAtom(info, e); ok && at.Kind == "cmp" && at.Op == token.EQL {
+					x, y = at.X, at.Y
+				} else {
+					return ""
+				}
+				if t := info.TypeOf(x); t == nil || !types.Identical(t, protoT.Type()) {
+					return ""
+				}
+				if sv, ok := constString(info, y); ok {
+					return sv
+				}
+				return ""
+			}
+			seenConst := map[string]bool{}
+			var first *Node
+			for _, m := range g.Nodes {
+				for _, e := range m.Succs {
+					if k := protoEq(e); k != "" {
+						seenConst[k] = true
+						if first == nil {
+							first = m
+						}
+					}
+				}
+			}
+			var serveN *Node
+			for _, m := range g.Nodes {
+				if _, isGo := m.Ast.(*ast.GoStmt); isGo {
+					for _, call := range callsIn(m.Ast) {
+						if p.CalleeName(f, call) == modPath+".ServerProtocol.Serve" {
+							serveN = m
+						}
+					}
+				}
+			}
+			if first != nil && serveN != nil {
+				found = true
+				fr := p.FeasibleReach(f, []*Node{g.Entry}, nil, func(e *Edge) bool { return protoEq(e) != "" })
+				if seenConst["netrpc"] && seenConst["grpc"] && !fr[serveN] {
+					c.R.Hold("R-SIB/switch", p.Pos(first.Ast), f.Name, "protocol switch", "the protocol value is compared with both ProtocolNetRPC and ProtocolGRPC and no server is started when it equals neither", true)
+				} else {
+					c.R.Violate("R-SIB/switch", p.Pos(first.Ast), f.Name, "protocol switch", fmt.Sprintf("the dispatch over the protocol does not cover both protocols with a failing default (netrpc=%v grpc=%v serves anyway=%v)", seenConst["netrpc"], seenConst["grpc"], fr[serveN]), nil)
+				}
+			}
+		}
 		if !found {
 			c.R.Undecided("R-SIB/switch", f.Name, "protocol switch", "no switch over a Protocol value found")
 		}
